@@ -162,7 +162,15 @@ func (P *Prog) assemble(decls []string, lemmaAx []string, body string, excludeAx
 			sb.WriteString(a + "\n")
 		}
 	}
+	modDecl := map[string]bool{}
+	for _, m := range mods {
+		modDecl[m.decl] = true
+	}
 	for _, d := range decls {
+		// a package-level variable read both by the function and by an axiom in use is declared once
+		if modDecl[d] {
+			continue
+		}
 		sb.WriteString(d + "\n")
 	}
 	for _, a := range lemmaAx {
